@@ -127,11 +127,41 @@ func (x *Exec) strSub(s, lo, hi *smt.Term) *smt.Term {
 // ---------- maps
 
 func mapKeySort(mt *types.Map) *smt.Sort {
+	if _, isIface := mt.Key().Underlying().(*types.Interface); isIface {
+		return RefS
+	}
 	ls := flatten(mt.Key())
 	if len(ls) != 1 {
 		unsupported("map with composite key type %s", mt.Key())
 	}
 	return ls[0].Sort
+}
+
+// mapKeyTerm: the key of a map access as one term. An interface key (dynamic type, data word) is
+// paired by an uninterpreted function that is injective on every pair the execution builds (the
+// projections are asserted for each instance).
+func (x *Exec) mapKeyTerm(v Value, kt types.Type) *smt.Term {
+	if _, isIface := kt.Underlying().(*types.Interface); isIface {
+		B := x.B
+		s := v.(*Struct)
+		typ, val := s.Fields[0].(*smt.Term), x.scalar(s.Fields[1], nil)
+		k := B.UF("ikey", RefS, typ, val)
+		x.assumeGlobal(B.And(B.Eq(B.UF("ikey_typ", RefS, k), typ), B.Eq(B.UF("ikey_val", RefS, k), val)))
+		return k
+	}
+	return x.scalar(v, kt)
+}
+
+// mapKeyValue: the Go value of a key term (inverse of mapKeyTerm).
+func (x *Exec) mapKeyValue(k *smt.Term, kt types.Type) Value {
+	if _, isIface := kt.Underlying().(*types.Interface); isIface {
+		B := x.B
+		typ, val := B.UF("ikey_typ", RefS, k), B.UF("ikey_val", RefS, k)
+		x.assumeGlobal(B.Eq(B.UF("ikey", RefS, typ, val), k))
+		return &Struct{[]Value{typ, val}}
+	}
+	kt2 := []*smt.Term{k}
+	return x.fromLeaves(kt, &kt2)
 }
 
 func mapKey(mt *types.Map) string { return "map:" + typeKey(mt) }
@@ -181,7 +211,7 @@ func (x *Exec) lookup(f *Frame, st *State, ins *ssa.Lookup) Value {
 	}
 	mt := ins.X.Type().Underlying().(*types.Map)
 	m := f.val(ins.X).(*smt.Term)
-	k := x.scalar(f.val(ins.Index), mt.Key())
+	k := x.mapKeyTerm(f.val(ins.Index), mt.Key())
 	v, ok := x.mapRead(st, mt, m, k)
 	if ins.CommaOk {
 		return &Struct{[]Value{v, ok}}
@@ -193,7 +223,7 @@ func (x *Exec) mapUpdate(f *Frame, st *State, ins *ssa.MapUpdate) {
 	B := x.B
 	mt := ins.Map.Type().Underlying().(*types.Map)
 	m := f.val(ins.Map).(*smt.Term)
-	k := x.scalar(f.val(ins.Key), mt.Key())
+	k := x.mapKeyTerm(f.val(ins.Key), mt.Key())
 	f.boundsCheck(st, ins, "nil-map-write", B.Neq(m, B.IntC(0)))
 	x.mapStore(st, mt, m, k, f.val(ins.Value))
 }
@@ -217,7 +247,7 @@ func (x *Exec) mapStore(st *State, mt *types.Map, m, k *smt.Term, v Value) {
 
 func (x *Exec) mapDelete(st *State, mt *types.Map, m *smt.Term, kv Value) {
 	B := x.B
-	k := x.scalar(kv, mt.Key())
+	k := x.mapKeyTerm(kv, mt.Key())
 	dom := x.mapDom(st, mt)
 	had := B.And(B.Neq(m, B.IntC(0)), B.Select(B.Select(dom, m), k))
 	x.heapSet(st, mapKey(mt)+"#dom", B.Store(dom, m, B.Store(B.Select(dom, m), k, B.False())))
@@ -273,10 +303,7 @@ func (x *Exec) rangeNext(f *Frame, st *State, ins *ssa.Next) Value {
 		st.PC = B.And(st.PC, B.Eq(ok, B.And(B.Neq(it.m, B.IntC(0)), some)), B.Implies(ok, B.And(B.Select(dom, k), B.Not(B.Select(vis, k)))))
 		st.cells[it.visited] = B.Ite(ok, B.Store(vis, k, B.True()), vis)
 		v, _ := x.mapRead(st, it.mt, it.m, k)
-		ls := flatten(it.mt.Key())
-		kt := []*smt.Term{k}
-		_ = ls
-		return &Struct{[]Value{ok, x.fromLeaves(it.mt.Key(), &kt), v}}
+		return &Struct{[]Value{ok, x.mapKeyValue(k, it.mt.Key()), v}}
 	}
 	// string: (ok, index, rune) with utf8 decoding left uninterpreted
 	pos := st.cells[it.pos].(*smt.Term)
@@ -400,6 +427,9 @@ func (x *Exec) registerLib() {
 		"unicode/utf8.DecodeRuneInString",
 		"strings.TrimSpace",
 		"github.com/cosmos72/gomacro/base/strings.Split2",
+		"go/ast.IsExported",
+		"reflect.ValueOf",
+		"(reflect.Value).Pointer",
 	} {
 		pureUF(n)
 	}
